@@ -23,11 +23,12 @@ theorem rcur_drop {rest buf : Bytes} (h : rest <:+ buf) : (rcur buf rest).buf.dr
 
 theorem read_exact_rcur {rest buf : Bytes} (h : rest <:+ buf) (n : Nat) :
     ReadCursor.read_exact (rcur buf rest) n =
-      if rest.length < n then .err .opaque else .ok (rcur buf (rest.drop n), toNats (rest.take n)) := by
+      if rest.length < n then .err (.opaque, rcur buf []) else .ok (rcur buf (rest.drop n), toNats (rest.take n)) := by
   unfold ReadCursor.read_exact
   rw [rcur_drop h, toNats_length]
   by_cases hn : rest.length < n
   · rw [if_pos hn, if_pos hn]
+    simp [rcur, toNats_length]
   · rw [if_neg hn, if_neg hn]
     have hl := h.length_le
     congr 2
@@ -35,9 +36,15 @@ theorem read_exact_rcur {rest buf : Bytes} (h : rest <:+ buf) (n : Nat) :
     · simp [toNats, List.map_take]
 
 /-- outcome of a generated reader predicted by a model reader -/
-def rdRes {α β : Type} (buf : Bytes) (f : α → β) : Option (α × Bytes) → Res IoError (ReadCursor × β)
+def rdRes {α β : Type} (buf : Bytes) (f : α → β) : Option (α × Bytes) → Res (IoError × ReadCursor) (ReadCursor × β)
   | some (a, r) => .ok (rcur buf r, f a)
-  | none => .err .opaque
+  | none => .err (.opaque, rcur buf [])   -- `UnexpectedEof`: std leaves the cursor at the end of the buffer
+
+/-- the same with an explicit cursor position for the error case -/
+def rdResE {α β : Type} (buf : Bytes) (f : α → β) (errRest : Bytes) :
+    Option (α × Bytes) → Res (IoError × ReadCursor) (ReadCursor × β)
+  | some (a, r) => .ok (rcur buf r, f a)
+  | none => .err (.opaque, rcur buf errRest)
 
 theorem from_le_bytes_toNats (b : Bytes) : RustSem.from_le_bytes (toNats b) = leVal b := by
   induction b with
@@ -80,7 +87,7 @@ theorem read_uN_eq {rest buf : Bytes} (h : rest <:+ buf) :
     simp only [len_repeat, read_exact_rcur h, Exec.bind_eq, Exec.pure_eq]
     split
     · rfl
-    · simp only [Exec.call, Exec.bind_val', Exec.run_val, rdRes, from_le_bytes_toNats, id]
+    · simp only [Exec.callFrom_ok, Exec.bind_val', Exec.run_val, rdRes, from_le_bytes_toNats, id]
 
 open Src.renetcode.serialize in
 theorem read_i32_eq {rest buf : Bytes} (h : rest <:+ buf) :
@@ -89,7 +96,7 @@ theorem read_i32_eq {rest buf : Bytes} (h : rest <:+ buf) :
   simp only [len_repeat, read_exact_rcur h, Exec.bind_eq, Exec.pure_eq]
   split
   · rfl
-  · simp only [Exec.call, Exec.bind_val', Exec.run_val, rdRes, RustSem.i32_from_le_bytes, from_le_bytes_toNats, id,
+  · simp only [Exec.callFrom_ok, Exec.bind_val', Exec.run_val, rdRes, RustSem.i32_from_le_bytes, from_le_bytes_toNats, id,
       i32OfU32]
 
 /-! ### read_sequence -/
@@ -105,17 +112,17 @@ theorem from_le_bytes_zeros (a : List Nat) (k : Nat) :
 
 open Src.renetcode.packet in
 theorem read_sequence_eq {rest buf : Bytes} (h : rest <:+ buf) (len : Nat) :
-    read_sequence (rcur buf rest) len = rdRes buf id (Packet.readSequence rest len) := by
+    read_sequence (rcur buf rest) len = rdResE buf id (if len > 8 then rest else []) (Packet.readSequence rest len) := by
   unfold read_sequence Packet.readSequence
   simp only [Exec.bind_eq, Exec.pure_eq]
   by_cases hl : len > 8
-  · simp only [hl, decide_true, if_true, Exec.bind_err', Exec.run_err, rdRes]
+  · simp only [hl, decide_true, if_true, Exec.bind_err', Exec.run_err, rdResE]
   simp only [hl, decide_false, Bool.false_eq_true, if_false, Exec.bind_val']
   have h8 : len ≤ (RustSem.repeat_ (0 : Nat) 8).length := by
     unfold RustSem.repeat_; rw [List.length_replicate]; omega
   have hsl : (RustSem.slice (RustSem.repeat_ (0 : Nat) 8) 0 len
       "renetcode/src/packet.rs:read_sequence: source.read_exact(&mut seq_scratch[0..len])" :
-        Exec IoError (ReadCursor × Nat) (List Nat)) = .val (List.replicate len 0) := by
+        Exec (IoError × ReadCursor) (ReadCursor × Nat) (List Nat)) = .val (List.replicate len 0) := by
     unfold RustSem.slice
     rw [if_pos ⟨Nat.zero_le _, h8⟩]
     simp only [RustSem.repeat_, List.take_replicate, List.drop_zero]
@@ -126,16 +133,16 @@ theorem read_sequence_eq {rest buf : Bytes} (h : rest <:+ buf) (len : Nat) :
   by_cases hn : rest.length < len
   · rw [if_pos hn, if_pos hn]; rfl
   · rw [if_neg hn, if_neg hn]
-    simp only [Exec.call, Exec.bind_val']
+    simp only [Exec.callFrom_ok, Exec.bind_val']
     have hcp : (RustSem.copy_from_slice (RustSem.repeat_ (0 : Nat) 8) 0 len (toNats (List.take len rest))
         "renetcode/src/packet.rs:read_sequence: source.read_exact(&mut seq_scratch[0..len])" :
-          Exec IoError (ReadCursor × Nat) (List Nat)) = .val (toNats (List.take len rest) ++ List.replicate (8 - len) 0) := by
+          Exec (IoError × ReadCursor) (ReadCursor × Nat) (List Nat)) = .val (toNats (List.take len rest) ++ List.replicate (8 - len) 0) := by
       unfold RustSem.copy_from_slice
       have : (toNats (List.take len rest)).length = len - 0 := by simp [toNats_length]; omega
       rw [if_pos ⟨Nat.zero_le _, h8, this⟩]
       simp only [RustSem.repeat_, List.take_zero, List.nil_append, List.drop_replicate]
     rw [hcp]
-    simp only [Exec.bind_val', Exec.run_val, rdRes, from_le_bytes_zeros, from_le_bytes_toNats, id]
+    simp only [Exec.bind_val', Exec.run_val, rdResE, from_le_bytes_zeros, from_le_bytes_toNats, id]
 
 /-! ### write cursor ↔ `Wr` -/
 
@@ -175,11 +182,15 @@ theorem wcur_write {w : Wr} {tail : List Nat} (h : WrOk w tail) (b : Bytes) :
     rw [hn, hout, hcap]
     simp [List.length_take]; omega
 
+/-- the cursor a failed `write_all` leaves behind: the buffer is filled to its end with the first bytes of `b` -/
+def wfull (w : Wr) (tail : List Nat) (b : Bytes) : WriteCursor :=
+  ⟨toNats w.out ++ (toNats b).take tail.length, w.out.length + tail.length⟩
+
 theorem wcur_write_all {w : Wr} {tail : List Nat} (h : WrOk w tail) (b : Bytes) :
     WriteCursor.write_all (wcur w tail) (toNats b) =
       (match w.writeAll b with
        | some w' => .ok (wcur w' (tail.drop b.length), ())
-       | none => .err .opaque) ∧
+       | none => .err (.opaque, wfull w tail b)) ∧
     (∀ w', w.writeAll b = some w' → WrOk w' (tail.drop b.length)) := by
   unfold WrOk at h
   have hL : (toNats w.out).length = w.out.length := toNats_length _
@@ -205,7 +216,12 @@ theorem wcur_write_all {w : Wr} {tail : List Nat} (h : WrOk w tail) (b : Bytes) 
       simp only [List.length_append, List.length_drop]; omega
   · have hf' : ¬ w.out.length + b.length ≤ w.cap := by omega
     rw [if_neg hf, if_neg hf']
-    exact ⟨rfl, fun w' hw' => by cases hw'⟩
+    refine ⟨?_, fun w' hw' => by cases hw'⟩
+    have t1 : List.take w.out.length (toNats w.out ++ tail) = toNats w.out := by
+      rw [List.take_append_of_le_length (by omega), List.take_of_length_le (by omega)]
+    simp only [t1, wfull]
+    congr 3
+    omega
 
 theorem leBytes_length (x k : Nat) : (Netcode.leBytes x k).length = k := by
   induction k generalizing x with
